@@ -92,23 +92,26 @@ char* _ZN4QSetItElsERKt(char *self, char *k) { VSET(self)->has[set_slot(*(uint16
 uint8_t _ZNK4QSetItE8containsERKt(char *self, char *k) { return VSET(self)->has[set_slot(*(uint16_t*)k)]; }
 #endif
 
-/* ================= cuts: HMAC-SHA1 and CRC-32 as uninterpreted, functionally consistent functions ================= */
+/* ================= cuts: HMAC-SHA1 and CRC-32 as uninterpreted, functionally consistent functions =================
+   Every call is recorded in its own slot (the call counter stays a constant whenever the calls are not under symbolic guards);
+   the result is a fresh symbolic digest unless an earlier recorded call had the same input: then it is that call's digest. */
 #ifndef VP_ORC_CAP
 #define VP_ORC_CAP 4
 #endif
-struct horc { QAD *key, *text; uint8_t dig[20]; };
-static struct horc hm_log[VP_ORC_CAP]; static uint32_t hm_n;
+struct orc { QAD *key, *text; uint8_t dig[20]; };
+#define ORC_EMPTY { (QAD*)&vp_qb_zero, (QAD*)&vp_qb_zero, { 0 } }
+static struct orc hm_log[VP_ORC_CAP] = { ORC_EMPTY, ORC_EMPTY, ORC_EMPTY, ORC_EMPTY }, cr_log[VP_ORC_CAP] = { ORC_EMPTY, ORC_EMPTY, ORC_EMPTY, ORC_EMPTY };
+static uint32_t hm_n, cr_n;
 uint32_t G_vp_hmac_calls = 0;
-static QAD *snap(QAD *d) { return qbv_copy(d, d->f1); }
-void _ZN10QXmppUtils16generateHmacSha1ERK10QByteArrayS2_(char *ret, char *key, char *text) { QAD *k = *(QAD**)key, *t = *(QAD**)text; QAD *r = qbv_new(20, 20); uint8_t *o = BD(r);
-  G_vp_hmac_calls++;
-  for (uint32_t i = 0; i < VP_ORC_CAP; i++) { if (i >= hm_n) break; if (vpl_x_eq(hm_log[i].key, k) && vpl_x_eq(hm_log[i].text, t)) { for (int j = 0; j < 20; j++) o[j] = hm_log[i].dig[j]; *(QAD**)ret = r; return; } }
-  ASSERT(hm_n < VP_ORC_CAP, "HMAC oracle log full"); struct horc *e = &hm_log[hm_n]; hm_n++; e->key = snap(k); e->text = snap(t);
-  for (int j = 0; j < 20; j++) { e->dig[j] = vp_u8(); o[j] = e->dig[j]; } *(QAD**)ret = r; }
-struct corc { QAD *text; uint32_t crc; };
-static struct corc cr_log[VP_ORC_CAP]; static uint32_t cr_n;
 uint32_t G_vp_crc_calls = 0;
-uint32_t _ZN10QXmppUtils13generateCrc32ERK10QByteArray(char *text) { QAD *t = *(QAD**)text; G_vp_crc_calls++;
-  for (uint32_t i = 0; i < VP_ORC_CAP; i++) { if (i >= cr_n) break; if (vpl_x_eq(cr_log[i].text, t)) return cr_log[i].crc; }
-  ASSERT(cr_n < VP_ORC_CAP, "CRC oracle log full"); struct corc *e = &cr_log[cr_n]; cr_n++; e->text = snap(t); e->crc = vp_u32(); return e->crc; }
+static void orc_call(struct orc *log, uint32_t *pn, QAD *k, QAD *t, uint32_t dl, uint8_t *out) { uint32_t n = *pn; ASSERT(n < VP_ORC_CAP, "oracle log full");
+  uint8_t dig[20]; for (uint32_t q = 0; q < 20; q++) dig[q] = q < dl ? vp_u8() : 0;
+  for (uint32_t j = 0; j < VP_ORC_CAP; j++) { if (j < n) { if ((!k || vpl_x_eq(log[j].key, k)) && vpl_x_eq(log[j].text, t)) { for (uint32_t q = 0; q < 20; q++) dig[q] = log[j].dig[q]; } } }
+  QAD *ks = k ? qbv_copy(k, k->f1) : (QAD*)&vp_qb_zero, *ts = qbv_copy(t, t->f1);
+  for (uint32_t j = 0; j < VP_ORC_CAP; j++) { if (j == n) { log[j].key = ks; log[j].text = ts; for (uint32_t q = 0; q < 20; q++) log[j].dig[q] = dig[q]; } }
+  *pn = n + 1; for (uint32_t q = 0; q < 20; q++) out[q] = dig[q]; }
+void _ZN10QXmppUtils16generateHmacSha1ERK10QByteArrayS2_(char *ret, char *key, char *text) { uint8_t d[20]; G_vp_hmac_calls++; orc_call(hm_log, &hm_n, *(QAD**)key, *(QAD**)text, 20, d);
+  QAD *r = qbv_new(20, 20); for (uint32_t q = 0; q < 20; q++) BD(r)[q] = d[q]; *(QAD**)ret = r; }
+uint32_t _ZN10QXmppUtils13generateCrc32ERK10QByteArray(char *text) { uint8_t d[20]; G_vp_crc_calls++; orc_call(cr_log, &cr_n, 0, *(QAD**)text, 4, d);
+  return ((uint32_t)d[0] << 24) | ((uint32_t)d[1] << 16) | ((uint32_t)d[2] << 8) | d[3]; }
 #endif
